@@ -264,16 +264,28 @@ theorem monoStep (p : GProg) : ∀ f, MonoStep p f := by
         | enum a b c => right; rfl
         | other => right; rfl
       | cref cm cn =>
-        simp only [linkVal]
+        rw [linkVal.eq_11, linkVal.eq_11]
         cases hl : lookupConst p cm cn with
         | none => right; rfl
         | some c =>
           simp only
           split
           · right; rfl
-          · cases hc : alookup (cm, cn) σ.cval with
-            | some cur => exact iVal _ _ _ _
-            | none => exact iVal _ _ _ _
+          · split
+            · right; rfl
+            · cases hc : alookup (cm, cn) σ.cval with
+              | some cur =>
+                simp only
+                cases h : linkVal f p m cur t { σ with clink := (cm, cn) :: σ.clink } with
+                | ok x => rw [(iVal _ _ _ _).ok h]; right; rfl
+                | err => rw [(iVal _ _ _ _).err h]; right; rfl
+                | fuel => left; rfl
+              | none =>
+                simp only
+                cases h : linkVal f p m c.val t { σ with reent := true, clink := (cm, cn) :: σ.clink } with
+                | ok x => rw [(iVal _ _ _ _).ok h]; right; rfl
+                | err => rw [(iVal _ _ _ _).err h]; right; rfl
+                | fuel => left; rfl
       | uref name =>
         rw [linkVal.eq_12, linkVal.eq_12]
         cases hl : lookupConst p m name with
